@@ -231,3 +231,13 @@ func (j jsonRaw) MarshalJSON() ([]byte, error) {
 	}
 	return j, nil
 }
+
+func canonJSONBytes(b []byte) any {
+	var v any
+	d := json.NewDecoder(strings.NewReader(string(b)))
+	d.UseNumber()
+	if d.Decode(&v) != nil {
+		return nil
+	}
+	return v
+}
